@@ -154,7 +154,7 @@ def enumerate_schedules(depth):
     cfg = os.path.join(d, "s.cfg")
     open(cfg, "w").write(f"SPECIFICATION Spec\nCONSTANTS\n  Depth = {depth}\n  Seeds = {{1, 2}}\nINVARIANT TypeOK\n"
                          "INVARIANT EmitHist\nCHECK_DEADLOCK FALSE\n")
-    p = subprocess.run(core._tlc_cmd("Seeded", cfg, os.path.join(d, "m"), 4, "4g"), capture_output=True, text=True,
+    p = subprocess.run(core._tlc_cmd("Seeded", cfg, os.path.join(d, "m"), 4, "2g"), capture_output=True, text=True,
                        cwd=common.SPEC, timeout=1800)
     out = p.stdout + p.stderr
     scheds, rest = [], []
